@@ -70,6 +70,14 @@ PROPS = {
                          'harness/c08.py: recording generator proxy, member proxies, multiplicities recomputed with the real members',
                          'NOT proved: the Lebesgue measure of an ellipsoid (no measure theory available): the constant pi^(d/2)/Gamma(d/2+1) and the calibration are checked numerically; uniformity of numpy multinomial / normal / shuffle / random is an oracle',
                          'the statistical checks (occupancy, calibration) are support at a false-alarm level below 1e-9 each, not proof']),
+    'C04': dict(module='c04', pfile='P_C04', required=['C04_shell_unbiased', 'C04_shell_limit', 'C04_unbiased', 'C04_volumes_sum'],
+                trusted=[KERNEL, 'PARTIAL: the theorems are on finite cell spaces and reduce unbiasedness to C01, C02, C08; continuum limit, adaptive stopping, pseudo-importance bias and "within the reported error" are NOT proved',
+                         'harness/c04.py: closed-form evidence of the test problems (erf, elementary integrals), t-thresholds frozen after calibration on the unchanged tree',
+                         'the seed ensembles are statistical support at a false-alarm level below 1e-6 per test, not proof']),
+    'C11': dict(module='c11', pfile='P_C11', required=['C11_accessors', 'C11_pool'],
+                trusted=[KERNEL, 'the theorems are light (a pure accessor cannot change a functional model; gathering by index undoes any scheduling order); the weight of this check is on the paired bit-identical runs',
+                         'harness/c11.py and c05.py: fingerprint of the results and canonical deep snapshot (unknown attributes fail closed)',
+                         'modelled not verified: real multiprocessing / dask pools (an in-process order-scrambling pool stands in for worker scheduling)']),
 }
 
 
